@@ -145,3 +145,7 @@ pub fn make_label_pairs<V: AsRef<str>>(desc: &Desc, label_values: &[V]) -> Resul
     label_pairs.sort();
     Ok(label_pairs)
 }
+
+// Verification hook: unit-level harnesses are compiled as a child module (only with `--cfg prometheus_verif`).
+#[cfg(all(prometheus_verif, any(kani, prometheus_verif_replay)))]
+include!(concat!(env!("PROMETHEUS_VERIF_INCRATE"), "/value.rs"));
